@@ -101,3 +101,12 @@ pub fn add_space_if_necessary_and_flush_buffer(out: &mut String, buffer: &mut St
         old(buffer)@.len() == 0 ==> final(out)@ == old(out)@,
         old(buffer)@.len() > 0 ==> final(out)@ == old(out)@ + separator@ + old(buffer)@,
 { unimplemented!() }
+
+/// the text of a whole lexical value
+pub open spec fn narsese_text(f: &NarseseFormat, n: Narsese) -> Seq<char> {
+    match n {
+        NarseseValue::Term(t) => lex_text(f, t),
+        NarseseValue::Sentence(s) => sentence_text(f, s),
+        NarseseValue::Task(t) => task_text(f, t),
+    }
+}
